@@ -3,6 +3,7 @@ import Driver.SearchState
 import TakVerif.Impl.Alloc
 import TakVerif.Impl.Book
 import TakVerif.Impl.Bot
+import TakVerif.Impl.BotTimer
 import TakVerif.Impl.BotCompose
 import TakVerif.Impl.BotLevel
 import Driver.SolverState
@@ -22,6 +23,7 @@ structure St where
   -- C04 (opening book) session: the book built by the last `book`/`realbook` op
   symBook : Option Tak.Book := none
   bot : Option Tak.Bot.Session := none      -- C07: the bot game of the current `case`
+  botStale : Nat := 0                       -- C07: its armed timers nobody looks at (`Tak.Bot.Timed.stale`, Impl/BotTimer.lean)
   cbot : Option Tak.Compose.SessionL := none  -- C07 composed: the bot game (real Friendly / Taktician as Bot) of the current `case`
   solvers : SolverSession := {}           -- C06: cache of the last exactly solved game graph
   serve : Tak.Serve.Server Tak.Move := {}  -- C05serve/C15serve: the one server object of the current `case`
